@@ -99,6 +99,8 @@ def gen(rng, tier):
     for _ in range(rng.randint(1, 5)):
         h = rng.pick(heads)
         t = GR.gen_tree(rng, rng.sample(toks, rng.randint(1, 4)), depth=rng.randint(0, 3))
+        if rng.chance(0.1):
+            t = ("eps",)
         lines.append([h, t, rng.getrandbits(16)])
     if not any(l[0] == "S" for l in lines):
         lines[0][0] = "S"
@@ -336,7 +338,10 @@ def _run_ebnf(case, out):
     for h, t, s in lines:
         t = _tt(t)
         by_head.setdefault(h, []).append(t)
-        texts.append(h + " -> " + _text(t, s))
+        if t == ("eps",) and s % 3 == 0:
+            texts.append(h + " -> ")          # an empty right-hand side is an epsilon alternative
+        else:
+            texts.append(h + " -> " + _text(t, s))
     if case.get("via_regex"):
         h, t, s = lines[0]
         t = _tt(t)
